@@ -27,18 +27,22 @@ def install_recorder():
     _orig['append_row'] = EX.Exporter.append_row
     _orig['empty'] = EX.Exporter._retrieve_empty_token.__func__
 
-    def append_row(self, document, node, options, row):
+    def append_row(self, *a, **k):
+        # signature-transparent: only the list the cells are appended to is looked at (keyword `row` or the last list argument)
+        row = k.get('row')
+        if row is None:
+            row = next((x_ for x_ in reversed(a) if isinstance(x_, list)), [])
         n0 = len(row)
-        r = _orig['append_row'](self, document=document, node=node, options=options, row=row)
+        r = _orig['append_row'](self, *a, **k)
         if not r:
             _rec['cells_spine_gated'] += 1
         elif len(row) == n0 + 1:
             _rec['cells_appended'] += 1
         return r
 
-    def empty(cls, node):
+    def empty(cls, *a, **k):
         _rec['placeholders'] += 1
-        return _orig['empty'](cls, node)
+        return _orig['empty'](cls, *a, **k)
     EX.Exporter.append_row = append_row
     EX.Exporter._retrieve_empty_token = classmethod(empty)
 
